@@ -1,5 +1,7 @@
 #!/bin/sh
 # usage: tools/try_mutant.sh PATCH ID...   -- applies PATCH to /repo, runs the quick checks, reverts
+# evidence files are rewritten by every run: keep the clean-tree ones aside and put them back afterwards
+rm -rf /root/scratch/evidence.keep && mkdir -p /root/scratch && cp -r /verif/evidence /root/scratch/evidence.keep
 patch=$1; shift
 cd /repo && git apply "$patch" || { echo "patch does not apply"; exit 2; }
 cd /verif
@@ -8,3 +10,4 @@ for id in "$@"; do
   echo "[$id] $out"
 done
 cd /repo && git checkout -- . && git status --short | head -3
+rm -rf /verif/evidence && cp -r /root/scratch/evidence.keep /verif/evidence
